@@ -21,7 +21,7 @@ CONSTANTS
   RewriteRatio = 10
   ContinueAfterCrash = FALSE
   DirSyncOnCreate = TRUE
-  DropTreeFirst = TRUE
+  DropFlushFirst = TRUE
   ZeroLenLogOK = TRUE
   GCSafe = TRUE
 INVARIANTS TypeOK OpensWithoutError PrefixRecovered DropAtomicity ManifestMatchesDisk NextTsAboveAll KillSafeManifest
